@@ -321,6 +321,7 @@ def runHist (exec : Delivery → Out) : List Nat → List Op → List (List Nat 
 inductive BOp
   | deliver (ns : List Nat) (faults : List Bool)
   | outcome (ok : Bool) (ns : List Nat) (faults : List Bool)   -- storeProposalsStatus(executed | failed)
+  | timeout (ns : List Nat)            -- a session holding `ns` hits its signing time-out: nothing is recorded
 deriving Repr
 
 /-- per delivery: the status map before it, the fault stream, the delivery, the outcome; and the final map -/
@@ -332,5 +333,6 @@ def runBtc (res : Nat → Nat) : List (Nat × Status) → List BOp → List (Sto
     ((⟨m, f⟩, ns, o) :: l, mf)
   | m, .outcome ok ns f :: r =>
     runBtc res (storeStatus ⟨m, f⟩ ns (if ok then .executed else .failed)).m r
+  | m, .timeout _ :: r => runBtc res m r
 
 end Sygma.C03
